@@ -27,6 +27,7 @@ META["claim"] += " " + "Also: the dispatcher object's send path under short writ
 META["claim"] += " " + 'Round 4: str payloads under short writes (framing judged); four short messages of alternating kind received by 2-3 threads with a preemption at every single line.'
 META["claim"] += " " + "Round 5: sender threads that threading.active_count() does not see (started behind the threading module's back); the transport offers sendmsg()."
 META["claim"] += " " + 'Rounds 6-7: aged connections, a fragmenting sender, a reader plus a ponger; a consumer that iterates over the connection next to recv()/next() callers; sender threads whose earlier send was refused by the transport.'
+META["claim"] += " " + 'Round 8: close(timeout=...) from another thread during a frame written in small pieces; two threads sending 1 MiB messages over real loopback TCP.'
 
 
 # ---------------------------------------------------------------------------
